@@ -20,6 +20,9 @@ import Fca.Lemmas.ConstructOE
 import Fca.Lemmas.ConstructAdd
 import Fca.Lemmas.ConstructRemove2
 import Fca.Lemmas.ConstructHyps
+import Fca.Lemmas.ConstructFast
+import Fca.Lemmas.ConstructPruned
+import Fca.Lemmas.CaspFinal
 namespace Fca.C12
 open Fca Fca.Spec Fca.Construct
 
@@ -225,5 +228,210 @@ example : RemInput [[0, 1], [], [1]] 0 ⟨[[2], [], [1]], [[], [2], [0]], none, 
   rbot := Or.inr rfl
   top' := ⟨1, isTop_of_B (by decide)⟩
   bot' := ⟨0, isBottom_of_B (by decide)⟩
+
+/-! ### size-gated scenarios (H8): what holds for lists of every size, with every kind of extent -/
+
+/-- **Pruned lists.**  Take any list that meets the hypotheses of the spanning-tree theorems and keep an arbitrary
+    sub-list of it that still contains the greatest concept (Sofia / random-forest style pruning, a filter on a
+    measure, 20 concepts dropped out of 1024, …): the sub-list meets the hypotheses again, so
+    `construct_lattice_by_spanning_tree` (every `n_jobs ≥ 1`, every schedule, both flags) and
+    `complete_comparison` return exactly the cover relation OF THE SUB-LIST.  Nothing like closure under
+    intersection is assumed anywhere (the example below is a sub-list that is not closed): a routine that is only
+    right on complete concept sets — `order_extents_comparison` — is not a substitute, at any size. -/
+theorem pruned_list_covers (cs cs' : List Ext) (top : Nat) (isSorted : Bool)
+    (hin : TreeInput cs top isSorted) (hsub : cs'.Sublist cs) (hkeep : cs.getD top [] ∈ cs')
+    (ord : List Nat → List Nat) (hord : OrdOK ord) (nJobs : Nat) (hjobs : 1 ≤ nJobs)
+    (sched : Nat → Nat → List Nat → List Nat) (hsched : SchedOK sched) :
+    (∃ out, bySpanningTreeC cs' isSorted nJobs ord sched = .ok out ∧ IsCoverDict cs' out) ∧
+    IsCoverDict cs' (completeComparisonC cs' isSorted nJobs ord) := by
+  obtain ⟨top', hin'⟩ := hin.sublist hsub hkeep
+  refine ⟨bySpanningTree_C cs' top' isSorted hin' ord hord nJobs hjobs sched hsched, ?_⟩
+  cases isSorted with
+  | false => exact complete_comparison_covers cs' hin'.nodup nJobs ord hord
+  | true => exact complete_comparison_sorted_covers cs' hin'.nodup (hin'.sorted rfl) nJobs ord hord
+
+/-- the hypotheses are met by a complete lattice (all subsets of three objects, sorted) and a pruned sub-list of
+    it that is NOT closed under intersection: `{0,1} ∩ {1,2} = {1}` was dropped -/
+example :
+    TreeInput [[0, 1, 2], [0, 1], [0, 2], [1, 2], [0], [1], [2], []] 0 true ∧
+    [[0, 1, 2], [0, 1], [1, 2], [0], []].Sublist [[0, 1, 2], [0, 1], [0, 2], [1, 2], [0], [1], [2], []] ∧
+    ([[0, 1, 2], [0, 1], [0, 2], [1, 2], [0], [1], [2], []] : List Ext).getD 0 [] ∈
+      ([[0, 1, 2], [0, 1], [1, 2], [0], []] : List Ext) ∧
+    interClosedB [[0, 1, 2], [0, 1], [0, 2], [1, 2], [0], [1], [2], []] = true ∧
+    interClosedB [[0, 1, 2], [0, 1], [1, 2], [0], []] = false :=
+  ⟨⟨by decide, isTop_of_B (by decide), fun _ => topoSorted_of_B (by decide)⟩, by decide, by decide, by decide,
+    by decide⟩
+
+/-- **Extents count as sets.**  Two listings of the same concepts that differ only in the ORDER in which each concept
+    lists its objects (`extent_i` ascending, descending, shuffled — `SameExtents`) get the same cover relation from
+    the spanning-tree routine and from `complete_comparison`, for any two job counts, set-iteration orders and
+    schedules.  Object indexes are natural numbers of any size in all C12 theorems: there is no word size, object
+    64 or 128 is an object like any other (second example below). -/
+theorem result_depends_on_extents_as_sets (cs cs' : List Ext) (top : Nat) (isSorted : Bool)
+    (hin : TreeInput cs top isSorted) (hsame : SameExtents cs cs') (hnd' : ExtsNodup cs')
+    (ord ord' : List Nat → List Nat) (hord : OrdOK ord) (hord' : OrdOK ord')
+    (nJobs nJobs' : Nat) (hj : 1 ≤ nJobs) (hj' : 1 ≤ nJobs')
+    (sched sched' : Nat → Nat → List Nat → List Nat) (hs : SchedOK sched) (hs' : SchedOK sched') :
+    (∃ out out', bySpanningTreeC cs isSorted nJobs ord sched = .ok out ∧
+        bySpanningTreeC cs' isSorted nJobs' ord' sched' = .ok out' ∧
+        ∀ i, i < cs.length → SameSetC (out.getD i []) (out'.getD i [])) ∧
+    ∀ i, i < cs.length → SameSetC ((completeComparisonC cs isSorted nJobs ord).getD i [])
+      ((completeComparisonC cs' isSorted nJobs' ord').getD i []) := by
+  have hin' : TreeInput cs' top isSorted :=
+    ⟨hnd', isTop_sameExtents hsame hin.top, fun h => topoSorted_sameExtents hsame (hin.sorted h)⟩
+  obtain ⟨out, e, c⟩ := bySpanningTree_C cs top isSorted hin ord hord nJobs hj sched hs
+  obtain ⟨out', e', c'⟩ := bySpanningTree_C cs' top isSorted hin' ord' hord' nJobs' hj' sched' hs'
+  have c'' := isCoverDict_sameExtents hsame c'
+  have hcc : IsCoverDict cs (completeComparisonC cs isSorted nJobs ord) ∧
+      IsCoverDict cs (completeComparisonC cs' isSorted nJobs' ord') := by
+    cases isSorted with
+    | false =>
+      exact ⟨complete_comparison_covers cs hin.nodup nJobs ord hord,
+        isCoverDict_sameExtents hsame (complete_comparison_covers cs' hnd' nJobs' ord' hord')⟩
+    | true =>
+      exact ⟨complete_comparison_sorted_covers cs hin.nodup (hin.sorted rfl) nJobs ord hord,
+        isCoverDict_sameExtents hsame
+          (complete_comparison_sorted_covers cs' hnd' (hin'.sorted rfl) nJobs' ord' hord')⟩
+  refine ⟨⟨out, out', e, e', fun i hi x => ?_⟩, fun i hi x => ?_⟩
+  · rw [(c.2 i hi).2 x, (c''.2 i hi).2 x]
+  · rw [(hcc.1.2 i hi).2 x, (hcc.2.2 i hi).2 x]
+
+/-- the same concepts with the objects listed in another order, object indexes beyond any machine word -/
+example : SameExtents [[0, 1, 2, 64, 200], [0, 64], [0, 1, 2], [0], []] [[200, 2, 64, 0, 1], [64, 0], [2, 0, 1], [0], []] ∧
+    ExtsNodup [[200, 2, 64, 0, 1], [64, 0], [2, 0, 1], [0], []] ∧
+    TreeInput [[0, 1, 2, 64, 200], [0, 64], [0, 1, 2], [0], []] 0 false :=
+  ⟨⟨rfl, fun i => by
+      match i with
+      | 0 | 1 | 2 | 3 | 4 => intro x; simp [List.getD] <;> omega
+      | _ + 5 => intro x; simp [List.getD]⟩,
+    by decide, ⟨by decide, isTop_of_B (by decide), by intro h; cases h⟩⟩
+
+/-- object 64 decides: `{0, 64}` is not below `{0, 1, 2}` (it would be if the object were dropped), and `{0}` is the
+    only lower cover of either -/
+example : Spec.coversDict [[0, 1, 2, 64, 200], [0, 64], [0, 1, 2], [0], []] = [[1, 2], [3], [3], [4], []] := by decide
+
+/-- **The driver's oracle is the specification.**  The bit-set evaluation used by the driver (extents packed into
+    unbounded `Nat` bit sets, the strict-inclusion relation tabulated as bit rows, "row minus the union of the rows
+    of its members") returns EXACTLY the lists `Spec.coversDict` / `Spec.upperCoversDict` define, and the same
+    greatest / least index, for every list of extents — 1000-concept lists are judged by the specification itself. -/
+theorem fast_oracle_exact (cs : List Ext) :
+    Spec.Fast.coversDictFast cs = Spec.coversDict cs ∧
+    Spec.Fast.upperCoversDictFast cs = Spec.upperCoversDict cs ∧
+    Spec.Fast.topFast cs = (List.range cs.length).find? (Spec.isTopB cs) ∧
+    Spec.Fast.bottomFast cs = (List.range cs.length).find? (Spec.isBottomB cs) :=
+  ⟨Spec.Fast.coversDictFast_eq cs, Spec.Fast.upperCoversDictFast_eq cs, Spec.Fast.topFast_eq cs,
+    Spec.Fast.bottomFast_eq cs⟩
+
+example : Spec.Fast.coversDictFast [[0, 1, 2, 64, 200], [0, 64], [0, 1, 2], [0], []] = [[1, 2], [3], [3], [4], []] := by
+  decide
+
+/-- **The driver's model runs are the models.**  The driver evaluates the generic models at the tabulated concept
+    comparison `ltAtFast cs` (supports and packed extents looked up in arrays); that comparison IS `ltAt cs`
+    (`concepts[i] < concepts[j]` with its two support shortcuts) for every list, so the three entry points
+    coincide with the ones the theorems above are about. -/
+theorem models_at_fast_lt (cs : List Ext) :
+    ltAtFast cs = ltAt cs ∧ completeComparisonF cs = completeComparisonC cs ∧
+    spanningTreeF cs = spanningTreeC cs ∧ bySpanningTreeF cs = bySpanningTreeC cs :=
+  ⟨ltAtFast_eq cs, completeComparisonF_eq cs, spanningTreeF_eq cs, bySpanningTreeF_eq cs⟩
+
+
+/-! ## `order_extents_comparison` and `caspailleur.order` — code-shaped model, contract proved (session 4) -/
+
+open Fca Fca.Construct Fca.Spec
+
+/-- `order_extents_comparison(concepts)` — code-shaped model incl. the caspailleur routines — returns a
+    dictionary whose keys are all indexes (each once) and whose value at `i` is exactly the set of lower
+    covers of `cs[i]` within `cs` under extent inclusion: the statement of `order_extents_covers` with the
+    permutation and the cover function COMPUTED instead of taken by contract.  FULL on duplicate-free
+    intersection-closed families whose indexes fit `n_objects`. -/
+theorem order_extents_comparison_code_exact (cs : List Ext)
+    (hr : Casp.inRangeB cs = true) (hd : Casp.distinctSetsB cs = true) (hc : Casp.interClosedB cs = true) :
+    ∃ d, Casp.orderExtentsComparisonCode cs = .ok d ∧
+      (d.map (·.1)).Perm (List.range cs.length) ∧
+      ∀ i, i < cs.length → (dictGet d i).Nodup ∧ SameSetC (dictGet d i) (Spec.covers cs i) :=
+  Casp.oe_code_exact cs hr hd hc
+
+/-- the code-shaped model returns the very value the specification-level model is handed by contract -/
+theorem order_extents_comparison_code_eq_contract (cs : List Ext)
+    (hr : Casp.inRangeB cs = true) (hd : Casp.distinctSetsB cs = true) (hc : Casp.interClosedB cs = true) :
+    ∃ idToTopo, idToTopo.Perm (List.range cs.length) ∧
+      Casp.orderExtentsComparisonCode cs =
+        .ok (orderExtentsComparison cs.length idToTopo (Spec.covers (topoList cs idToTopo))) := by
+  obtain ⟨p, hp, e⟩ := Casp.oe_code_eq cs hr hd hc
+  exact ⟨p, hp.perm, e⟩
+
+/-- `sort_intents_inclusion(intents, return_transitive_order=True)` on a non-empty list of equal-length
+    bitarrays that is duplicate-free, passes `check_topologically_sorted` and is closed under `&`:
+    `lattice[i]` = the upper covers of `i` (smallest strict supersets), `trans_lattice[i]` = all strict
+    supersets. -/
+theorem sort_intents_inclusion_covers (intents : List Casp.Bits) (nA : Nat) (hne : intents ≠ [])
+    (hu : Casp.Uniform intents nA) (hnd : intents.Nodup)
+    (hs : Casp.checkTopologicallySorted true intents = true) (hc : Casp.Closed intents) :
+    ∃ lattice trans, Casp.sortIntentsInclusion intents = .ok (lattice, trans) ∧
+      lattice.length = intents.length ∧ trans.length = intents.length ∧
+      ∀ i, i < intents.length → ∀ j,
+        (Casp.bit (lattice.getD i []) j = true ↔
+          (j < intents.length ∧ Casp.UpperCover intents.length (Casp.hasOf intents) i j)) ∧
+        (Casp.bit (trans.getD i []) j = true ↔
+          (j < intents.length ∧ Casp.SSub (Casp.hasOf intents) i j)) := by
+  obtain ⟨st, e, inv⟩ := Casp.sortIntentsInclusion_spec hne hu hs (Casp.fam_of_list hu hnd hs hc)
+  exact ⟨st.1, st.2, e, inv.shape1.1, inv.shape2.1, fun i hi j =>
+    ⟨inv.lat i (Nat.zero_le _) hi j, inv.trans i (Nat.zero_le _) hi j⟩⟩
+
+/-- `inverse_order` on an `n × n` table is the relation transpose: `new_order[j][i] = order[i][j]` -/
+theorem inverse_order_transpose (order : List Casp.Bits) (n : Nat) (hs : Casp.Shape order n n) :
+    ∃ inv, Casp.inverseOrder order = .ok inv ∧ Casp.Shape inv n n ∧
+      ∀ i j, Casp.bit (inv.getD j []) i = true ↔ Casp.bit (order.getD i []) j = true :=
+  Casp.inverseOrder_spec hs
+
+/-- `topological_sorting(elements)`: the sorted list is a permutation of the input that passes
+    `check_topologically_sorted`; on duplicate-free input the index map is a permutation of `range n`
+    sending every position to the position of its element in the sorted list. -/
+theorem topological_sorting_sorted (els : List Casp.Bits) (hnd : els.Nodup) :
+    ∃ srt m, Casp.topologicalSorting els true = .ok (srt, m) ∧ srt.Perm els ∧
+      Casp.checkTopologicallySorted true srt = true ∧ m.Perm (List.range els.length) ∧
+      m = els.map srt.idxOf :=
+  ⟨_, _, Casp.topologicalSorting_nodup hnd, Casp.stableSort_perm true els, Casp.stableSort_check els,
+    Casp.idxMap_perm (Casp.stableSort_perm true els) hnd, rfl⟩
+
+/-! non-vacuity: the hypotheses hold on the Boolean lattice `2^3` (8 extents, scrambled listing) and on an
+    `N5`-shaped closed family; the model's value on them -/
+
+example : Casp.inRangeB [[0], [0, 1, 2], [], [1, 2], [0, 1], [2], [1], [0, 2]] = true ∧
+    Casp.distinctSetsB [[0], [0, 1, 2], [], [1, 2], [0, 1], [2], [1], [0, 2]] = true ∧
+    Casp.interClosedB [[0], [0, 1, 2], [], [1, 2], [0, 1], [2], [1], [0, 2]] = true := by decide
+
+example : Casp.orderExtentsComparisonCode [[0], [0, 1, 2], [], [1, 2], [0, 1], [2], [1], [0, 2]] =
+    .ok [(2, []), (0, [2]), (6, [2]), (5, [2]), (4, [0, 6]), (7, [0, 5]), (3, [6, 5]), (1, [4, 7, 3])] := by
+  decide
+
+/-- `N5`: `∅ ⊂ {0} ⊂ {0,1} ⊂ {0,1,2}` and `∅ ⊂ {2} ⊂ {0,1,2}` -/
+example : Casp.inRangeB [[0, 1, 2], [0, 1], [2], [0], []] = true ∧
+    Casp.distinctSetsB [[0, 1, 2], [0, 1], [2], [0], []] = true ∧
+    Casp.interClosedB [[0, 1, 2], [0, 1], [2], [0], []] = true := by decide
+
+example : Casp.orderExtentsComparisonCode [[0, 1, 2], [0, 1], [2], [0], []] =
+    .ok [(4, []), (3, [4]), (2, [4]), (1, [3]), (0, [2, 1])] := by decide
+
+/-- **why the family must be intersection-closed**: `{0,1} ∩ {0,2} = {0}` is missing from this list; while
+    `∅` (index 4) is processed, every element of `{1,2}` (index 3) is first found in an earlier-listed
+    superset of `∅` (`1` in `{0,1}`, `2` in `{0,2}`), so `{1,2}` is never recorded as an upper neighbour of
+    `∅`: the routine answers "`{1,2}` has no lower neighbour" although `∅` is one. -/
+theorem not_closed_witness :
+    Casp.interClosedB [[0, 1, 2], [0, 1], [0, 2], [1, 2], []] = false ∧
+    Casp.inRangeB [[0, 1, 2], [0, 1], [0, 2], [1, 2], []] = true ∧
+    Casp.distinctSetsB [[0, 1, 2], [0, 1], [0, 2], [1, 2], []] = true ∧
+    Casp.orderExtentsComparisonCode [[0, 1, 2], [0, 1], [0, 2], [1, 2], []] =
+      .ok [(4, []), (1, [4]), (2, [4]), (3, []), (0, [1, 2, 3])] ∧
+    Spec.covers [[0, 1, 2], [0, 1], [0, 2], [1, 2], []] 3 = [4] := by decide
+
+/-- the two other hypotheses are needed as well: a repeated extent ends in `KeyError` (the `{el: i}`
+    dictionary of `topological_sorting` collapses the two copies, `topo_to_id_map` misses a position), an
+    index `≥ max(len(extent))` in `IndexError` (`isets2bas`) -/
+theorem duplicate_and_range_witness :
+    Casp.orderExtentsComparisonCode [[0, 1], [0], [0], []] = .error .KeyError ∧
+    Casp.orderExtentsComparisonCode [[2], []] = .error .IndexError ∧
+    Casp.orderExtentsComparisonCode [] = .error .ValueError := by decide
+
 
 end Fca.C12
